@@ -788,7 +788,10 @@ class Parser:
         raise BlockParseException(f'Expecting {s} got {self.current.tid}.', self.getline(), self.current.lineno, self.current.colno, self.lexer.getline(block_start.line_start), block_start.lineno, block_start.colno)
 
     def parse(self) -> CodeBlockNode:
-        block = self.codeblock()
+        try:
+            block = self.codeblock()
+        except RecursionError:
+            raise ParseException('Expression is nested too deeply.', self.getline(), self.current.lineno, self.current.colno)
         try:
             self.expect('eof')
         except ParseException as e:
